@@ -147,6 +147,7 @@ int main ()
   // then both accumulate the rest.  Output: number of result components that differ (bitwise)
   OP("o.c12.rassign") { unsigned n=A.nat(); unsigned k=A.nat(); std::vector<ED> items; for (unsigned i=0;i<n;i++) items.push_back (rdD(A));
     MeanRadian<double> m, f; for (unsigned i=0;i<k;i++) { if (i == 0) m = items[i]; else m += items[i]; }
+    if (k) { ED q0 = m.get_Estimate(), q1 = m.get_cos(), q2 = m.get_sin(); (void) q0; (void) q1; (void) q2; }   // the used accumulator has been queried
     m = items[k]; f = items[k];
     for (unsigned i=k+1;i<n;i++) { m += items[i]; f += items[i]; }
     ED a[3] = { m.get_Estimate(), m.get_cos(), m.get_sin() }; ED b[3] = { f.get_Estimate(), f.get_cos(), f.get_sin() };
